@@ -44,6 +44,15 @@ def impl_partition(ver, tv, tp, ev, ep):
     if zlib.crc32(repr((ver, tv, tp, ev, ep)).encode()) % 3 == 0:
         r2 = netaddr.ip.cidr_partition(str(t), str(e))
         assert [_out(ver, r2[0]), _out(ver, r2[1]), _out(ver, r2[2])] == res, "string arguments give a different partition"
+        # .. and written with a netmask / a hostmask after the '/' (prefix strictly inside 0..width for the hostmask: the two
+        # extreme masks are netmasks by the documented precedence)
+        w = gens.W[ver]
+
+        def masked(v, p, host):
+            m = ((1 << (w - p)) - 1) if host else ((1 << w) - (1 << (w - p)))
+            return "%s/%s" % (netaddr.IPAddress(v, ver), netaddr.IPAddress(m, ver))
+        r4 = netaddr.ip.cidr_partition(masked(tv, tp, False), masked(ev, ep, 0 < ep < w and (ev + ep) % 2 == 0))
+        assert [_out(ver, x) for x in r4] == res, "netmask / hostmask spellings of the arguments give a different partition"
         if tp == gens.W[ver]:
             r3 = netaddr.ip.cidr_partition(netaddr.IPAddress(tv, ver), e)
             assert [_out(ver, x) for x in r3] == res, "IPAddress target gives a different partition"
